@@ -3,6 +3,7 @@ package pc
 import (
 	"fmt"
 	"go/ast"
+	"go/printer"
 	"go/token"
 	"go/types"
 	"os"
@@ -169,6 +170,12 @@ func (c *nfClient) nfOf(e *Engine, st *State, x ast.Expr) (string, string) {
 					}
 				}
 				return out, src
+			}
+			return "none", ""
+		case "errors.Unwrap":
+			// what a wrapper exposes is what it wraps: the not-found error inside stays a not-found error
+			if len(v.Args) == 1 {
+				return c.nfOf(e, st, v.Args[0])
 			}
 			return "none", ""
 		case "errors.Join":
@@ -604,6 +611,15 @@ type splitPairClient struct {
 	open map[string]ast.Node // sub-parser key -> split call
 }
 
+// Inline: besides predicates, read-only methods of the parser (a look at the next unread token that also reports
+// whether there is one) are read where they are called.
+func (c *splitPairClient) Inline(e *Engine, call *ast.CallExpr, callee *types.Func, decl *ast.FuncDecl) bool {
+	if c.InlinePredicates.Inline(e, call, callee, decl) {
+		return true
+	}
+	return callee != nil && cursorOf(callee) == "parser" && fnName(callee) != "endSplit" && e.pureModuleFunc(callee) && smallBody(decl)
+}
+
 func isSplitCall(info *types.Info, e ast.Expr) *ast.CallExpr {
 	call, ok := ast.Unparen(e).(*ast.CallExpr)
 	if !ok {
@@ -691,12 +707,19 @@ func (c *splitPairClient) closed(st *State, k string) (bool, string) {
 		return true, "endSplit() result joined into the error"
 	case "t":
 		return true, "the path itself tested that the range is exhausted"
+	case "n":
+		return true, "a cursor position below zero (never reached: C12/cursor)"
 	}
 	if st.Ext("fresherr") == "1" {
 		return true, "an error was recorded on this path"
 	}
 	if f := st.Get("(" + k + ".pos < len(" + k + ".tokens))"); f != nil && f.HasEq && f.Eq == "false" {
 		return true, "the path itself tested that the range is exhausted"
+	}
+	// a path on which the cursor is known to be negative does not exist: the cursor starts at 0 and moves back only
+	// over what it has read (C12/cursor, part of this check) - the false branch of a defensive `pos >= 0`
+	if f := st.Get(k + ".pos"); f != nil && f.Hi != nil && *f.Hi < 0 {
+		return true, "a cursor position below zero (never reached: C12/cursor)"
 	}
 	return false, ""
 }
@@ -774,6 +797,8 @@ func (c *splitPairClient) noteTested(st *State) *State {
 		key := strings.TrimPrefix(k, "open:")
 		if f := st.Get("(" + key + ".pos < len(" + key + ".tokens))"); f != nil && f.HasEq && f.Eq == "false" {
 			st = st.WithExt(k, "t")
+		} else if f := st.Get(key + ".pos"); f != nil && f.Hi != nil && *f.Hi < 0 {
+			st = st.WithExt(k, "n")
 		}
 	}
 	return st
@@ -877,6 +902,12 @@ func ruleC08ErrorToken(p *Program, r *Run) {
 			}
 			for _, e := range cc.List {
 				if constName(info, e) == "TokenError" {
+					// a clause of its own that does exactly what the default clause does treats the error token
+					// like every other kind that is not listed: spelled out, not accepted
+					if len(cc.List) == 1 && p.sameAsDefaultClause(cc) {
+						r.Pass("C08/errortoken", FuncName(pkg, fd)+" case TokenError", p.Pos(e.Pos()), "the clause is a copy of the default clause: the error token is treated like any kind that is not listed")
+						continue
+					}
 					r.Fail("C08/errortoken", FuncName(pkg, fd)+" case TokenError", p.Pos(e.Pos()), "a switch has a case for the lexer's error token")
 				}
 			}
@@ -1038,4 +1069,26 @@ func (p *Program) errorSink(fn *types.Func) bool {
 		return true
 	})
 	return sink
+}
+
+// sameAsDefaultClause: the statements of cc are, as text, those of the default clause of the same switch.
+func (p *Program) sameAsDefaultClause(cc *ast.CaseClause) bool {
+	blk, ok := p.Parent(cc).(*ast.BlockStmt)
+	if !ok {
+		return false
+	}
+	text := func(list []ast.Stmt) string {
+		var sb strings.Builder
+		for _, st := range list {
+			printer.Fprint(&sb, p.Fset, st)
+			sb.WriteString("\n")
+		}
+		return sb.String()
+	}
+	for _, s := range blk.List {
+		if d, isCC := s.(*ast.CaseClause); isCC && d.List == nil {
+			return text(d.Body) == text(cc.Body)
+		}
+	}
+	return false
 }
